@@ -2,10 +2,11 @@
    Statements only; the model is Model/RTree.v (boxes over Z; RangeSearch after fix F1), proofs are
    in Proofs/RTree_proofs.v (boxes, RangeSearch), Proofs/RTree_bulk_proofs.v (bulk loading, Count,
    Extent), Proofs/RTree_qp_proofs.v (quickPartition's contract), Proofs/RTree_prio_proofs.v
-   (PrioritySearch, Nearest). *)
+   (PrioritySearch, Nearest over an abstract minimum queue), Proofs/RTree_heap_proofs.v (the real
+   queue: Go's container/heap on entriesQueue, Model/RTreeHeap.v). *)
 From Coq Require Import ZArith List Bool Permutation.
-From SF Require Import Base.Outcome Model.RTree Proofs.RTree_proofs Proofs.RTree_bulk_proofs
-     Proofs.RTree_qp_proofs Proofs.RTree_prio_proofs.
+From SF Require Import Base.Outcome Model.RTree Model.RTreeHeap Proofs.RTree_proofs
+     Proofs.RTree_bulk_proofs Proofs.RTree_qp_proofs Proofs.RTree_prio_proofs Proofs.RTree_heap_proofs.
 Import ListNotations.
 Open Scope Z_scope.
 
@@ -179,6 +180,68 @@ Print Assumptions pop_min_is_heap.
 Example priority_search_example :
   match priority_search pop_min (MkBox 5 3 5 3) (script 3 WrappedStop) ex_tree with
   | Some (v, r) => map (fun it => sqdist (ibox it) (MkBox 5 3 5 3)) v = [4; 4; 5; 5] /\ r = RNil
+  | None => False
+  end.
+Proof. vm_compute. auto. Qed.
+
+(* ---------------------------------------------------------------- the REAL queue: container/heap *)
+(* Model/RTreeHeap.v transcribes entriesQueue (Less/Swap/Push/Pop on a slice) and Go's
+   container/heap (up, down, Push, Pop).  [is_heap o l]: every element of the slice l is <= its two
+   children at 2i+1, 2i+2 in the squared distance to o.  (heap_spec above quantifies over ALL
+   lists; a binary heap's Pop returns a minimum only of a heap-ordered slice, so the statement
+   for the real queue carries the invariant, which Push and Pop maintain from the empty slice.) *)
+Theorem real_heap_push_spec : forall (o : box) (l : list entry) (x : entry),
+  is_heap o l ->
+  exists l', heap_push o l x = Some l' /\ Permutation l' (x :: l) /\ is_heap o l'.
+Proof. exact heap_push_ok. Qed.
+Print Assumptions real_heap_push_spec.
+
+Theorem real_heap_pop_spec : forall (o : box) (l : list entry),
+  is_heap o l -> l <> [] ->
+  exists e rest, heap_pop_go o l = Some (e, rest) /\ Permutation l (e :: rest) /\ is_heap o rest /\
+                 forall e', In e' rest -> sqdist (ebox e) o <= sqdist (ebox e') o.
+Proof. exact heap_pop_ok. Qed.
+Print Assumptions real_heap_pop_spec.
+Example real_heap_example :
+  is_heap ex_query [] /\
+  match enqueue (MkBox 5 3 5 3) [] (map (fun it => ELeaf (ibox it) (iid it)) (ex_row 7)) with
+  | Some l => match heap_pop_go (MkBox 5 3 5 3) l with
+              | Some (e, rest) => sqdist (ebox e) (MkBox 5 3 5 3) = 4 /\ length rest = 6%nat
+              | None => False
+              end
+  | None => False
+  end.
+Proof. split; [apply is_heap_nil|vm_compute; auto]. Qed.
+
+(* PrioritySearch and Nearest running on the real queue: no hypothesis about the queue is left;
+   no index out of range, fuel suffices (the result is Some) *)
+Theorem priority_search_heap_spec : forall (t : rtree) (q : box) (cb : callback),
+  tree_inv t = true ->
+  exists v ret, priority_search_heap q cb t = Some (v, ret) /\
+                prio_ok (tree_leaves t) q cb v ret = true.
+Proof. exact priority_search_heap_spec_lemma. Qed.
+Print Assumptions priority_search_heap_spec.
+
+Theorem nearest_heap_spec : forall (t : rtree) (q : box),
+  tree_inv t = true ->
+  exists r, nearest_heap t q = Some r /\ nearest_ok (tree_leaves t) q r = true.
+Proof. exact nearest_heap_spec_lemma. Qed.
+Print Assumptions nearest_heap_spec.
+
+(* end to end from ANY loaded item list *)
+Theorem bulk_priority_search_heap_spec : forall items q cb,
+  exists t v ret, bulk_load items = Ok t /\ priority_search_heap q cb t = Some (v, ret) /\
+                  prio_ok items q cb v ret = true.
+Proof. exact bulk_priority_search_heap_lemma. Qed.
+Print Assumptions bulk_priority_search_heap_spec.
+
+Theorem bulk_nearest_heap_spec : forall items q,
+  exists t r, bulk_load items = Ok t /\ nearest_heap t q = Some r /\ nearest_ok items q r = true.
+Proof. exact bulk_nearest_heap_lemma. Qed.
+Print Assumptions bulk_nearest_heap_spec.
+Example priority_search_heap_example :
+  match priority_search_heap (MkBox 5 3 5 3) (script 3 WrappedStop) ex_tree with
+  | Some (v, r) => map iid v = [4; 5; 3; 6] /\ r = RNil
   | None => False
   end.
 Proof. vm_compute. auto. Qed.
